@@ -225,6 +225,53 @@ fn skip_line(
     }
 }
 
+/// the slice twins of the skip functions (`skip_header_extension_in_slice`, `skip_all_header_extensions_in_slice`)
+/// and `is_skippable_header_extension`, on the complete data: when the reader version got through without
+/// meeting its failure position they must give the same next header and consume the same bytes; when the
+/// reader version ran into the end of the data they must report a length error
+fn skip_twins(all: bool, a: &[&str], reader_line: &str) -> Option<String> {
+    let (nh, d, k) = match a {
+        [nh, d, k] => (num::<u8>(nh)?, hex(d)?, num::<usize>(k)?),
+        _ => return None,
+    };
+    let r = if all {
+        Ipv6Header::skip_all_header_extensions_in_slice(&d, IpNumber(nh))
+    } else {
+        Ipv6Header::skip_header_extension_in_slice(&d, IpNumber(nh))
+    };
+    let twin = match &r {
+        Ok((n, rest)) => format!("ok({});pos={}", n.0, d.len() - rest.len()),
+        Err(_) => "err(len)".to_string(),
+    };
+    let mut diffs: Vec<String> = Vec::new();
+    if let Some(rest) = reader_line.strip_suffix(";post=0") {
+        if rest.starts_with("ok(") && rest != twin {
+            diffs.push(format!("in_slice={}", twin));
+        }
+        if rest.starts_with("err(eof)") && k >= d.len() && r.is_ok() {
+            diffs.push(format!("in_slice={}", twin));
+        }
+    }
+    if !all {
+        // a header kind is skipped by `skip_header_extension` iff `is_skippable_header_extension` says so
+        let skippable = Ipv6Header::is_skippable_header_extension(IpNumber(nh));
+        if let Ok((n, rest)) = &r {
+            let moved = rest.len() != d.len() || n.0 != nh;
+            if moved && !skippable {
+                diffs.push("is_skippable=false-but-skipped".to_string());
+            }
+        }
+        if skippable && d.len() >= 2 && r.is_ok() && r.as_ref().ok()?.1.len() == d.len() {
+            diffs.push("is_skippable=true-but-not-skipped".to_string());
+        }
+    }
+    Some(if diffs.is_empty() {
+        reader_line.to_string()
+    } else {
+        format!("{}!doors-differ({})", reader_line, diffs.join(";"))
+    })
+}
+
 fn io_err(e: &std::io::Error) -> String {
     if e.kind() == std::io::ErrorKind::Other && e.to_string() == INJECTED {
         "err(io)".to_string()
@@ -1466,8 +1513,14 @@ pub fn run(op: &str, a: &[&str]) -> Option<String> {
         "io.build.write" => build(a, false)?,
         "io.build.wslice" => build(a, true)?,
         // ---- Read + Seek skipping of IPv6 extension headers
-        "io.skip.ext" => skip_line(a, |r, n| Ipv6Header::skip_header_extension(r, n))?,
-        "io.skip.all" => skip_line(a, |r, n| Ipv6Header::skip_all_header_extensions(r, n))?,
+        "io.skip.ext" => {
+            let l = skip_line(a, |r, n| Ipv6Header::skip_header_extension(r, n))?;
+            skip_twins(false, a, &l)?
+        }
+        "io.skip.all" => {
+            let l = skip_line(a, |r, n| Ipv6Header::skip_all_header_extensions(r, n))?;
+            skip_twins(true, a, &l)?
+        }
         _ => return None,
     })
 }
